@@ -510,6 +510,10 @@ def b_print(eng, node, st):
     if isinstance(fileobj, VModel):
         kwargs = {kw.arg: eng.eval(kw.value, st) for kw in node.keywords if kw.arg != "file"}
         return fileobj.sym_print(eng, st, args, kwargs, node)
+    kwargs = {kw.arg: eng.eval(kw.value, st) for kw in node.keywords if kw.arg != "file"}
+    r = eng.model_hook(fileobj, "print", st, args, kwargs)
+    if r is not NotImplemented:
+        return r
     raise Unsupported("print to %r" % (fileobj,))
 
 
